@@ -78,8 +78,24 @@ pub fn canon_request(req: &Request) -> String {
             format!("{}={}", hx(n), vals.join(";"))
         })
         .collect();
-    let cookies: Vec<String> =
+    let mut cookies: Vec<String> =
         req.get_cookies().iter().map(|c| format!("{}={}", hx(c.name.as_bytes()), hx(c.value.as_bytes()))).collect();
+    // the single-cookie lookup must agree with the list: the first cookie of that name, nothing for a name that is not there
+    {
+        let list = req.get_cookies();
+        let mut seen: Vec<&str> = Vec::new();
+        for c in &list {
+            if seen.contains(&c.name.as_str()) { continue; }
+            seen.push(c.name.as_str());
+            match req.get_cookie(c.name.as_str()) {
+                Some(g) if g.value == c.value => {}
+                other => cookies.push(format!("LOOKUP-MISMATCH:{}:{}", hx(c.name.as_bytes()), match other { Some(g) => hx(g.value.as_bytes()), None => "none".into() })),
+            }
+        }
+        if !seen.contains(&"no-such-cookie") && req.get_cookie("no-such-cookie").is_some() {
+            cookies.push("LOOKUP-MISMATCH:absent-name-found".into());
+        }
+    }
     format!(
         "OK {} {} {} {} H[{}] C[{}] A[{}/{}/{}] K[{}]",
         req.method,
@@ -409,7 +425,25 @@ pub fn render(rng: &mut Rng, g: &GenReq, peer: &str, port: u16) -> Rendered {
     let mut cookie_expect: Vec<(String, String)> = Vec::new();
     if let Some(c) = &g.cookies {
         let sep = *rng.pick(&["; ", ";", " ; "]);
-        let v = c.iter().map(|(k, v)| format!("{}={}", k, v)).collect::<Vec<_>>().join(sep);
+        // segments that are no `name=value` pair (a bare flag, an empty segment from a doubled, leading or trailing `;`) are
+        // skipped by the parser and must not disturb the cookies around them
+        let mut segs: Vec<String> = c.iter().map(|(k, v)| format!("{}={}", k, v)).collect();
+        if rng.chance(1, 3) {
+            for _ in 0..rng.range(1, 3) {
+                let seg = rng.pick(&["secure", "", " ", "HttpOnly", "flag"]).to_string();
+                if seg.trim().is_empty() {
+                    // a blank segment goes between two others (no leading / trailing whitespace in the field value: the
+                    // property's quantifier); an empty one may also lead (`;a=b`)
+                    if segs.len() >= 2 { let at = 1 + rng.below(segs.len() as u64 - 1) as usize; segs.insert(at, seg); }
+                } else {
+                    let at = rng.below(segs.len() as u64 + 1) as usize;
+                    segs.insert(at, seg);
+                }
+            }
+        }
+        let mut v = segs.join(sep);
+        if rng.chance(1, 10) { v = format!(";{}", v); } // a leading `;`
+        if rng.chance(1, 10) { v.push(';'); }            // a trailing `;`
         let pos = rng.below(all.len() as u64 + 1) as usize;
         all.insert(pos, (rand_case(rng, "Cookie"), " ".into(), v));
         cookie_expect = c.iter().map(|(k, v)| (k.trim().to_string(), v.trim().to_string())).collect();
